@@ -100,7 +100,7 @@ def run(tier):
         "known_finding_cases": {k: v[0] for k, v in verdict.known.items()},
     }, time.time() - t0, len(verdict.violations),
         assumptions=["Sem.tla is the reference for what each chunk yields", "harness printer/encoder/error-kind table",
-                     "sets are not yet in Sem (layer 2): container kinds are list and dict"])
+                     "container kinds: list, dict, set"])
     return rc
 
 
